@@ -17,11 +17,13 @@
 // The program decides nothing: it records what it did and saw; TLC validates against spec/Signals/Trace_Signals.tla.
 #include <vh.h>
 #include <condition_variable>
+#include <fcntl.h>
 #include <fstream>
 #include <functional>
 #include <memory>
 #include <pthread.h>
 #include <thread>
+#include <algorithm>
 #include <nlohmann/json.hpp>
 #include <tbox/base/verif_hook.h>
 #include <tbox/event/loop.h>
@@ -140,8 +142,13 @@ static void pass_round() {
 // while the handler is still between two writes.  In a free run this window is a few instructions wide.
 static volatile bool g_step = false;
 static std::atomic<int> g_step_points{0};
-static void on_point(const char *name, long, long) {
-    if (!g_step || tl_loop != 0 || strcmp(name, "event.signal.written") != 0) return;
+// burst: the pipes written by the handler are shrunk to one page (1024 numbers) so that a held loop's pipe fills up quickly
+static volatile bool g_shrink = false;
+static std::atomic<int> g_shrunk{0};
+static void on_point(const char *name, long, long fd) {
+    if (strcmp(name, "event.signal.written") != 0) return;
+    if (g_shrink && fcntl((int)fd, F_SETPIPE_SZ, 4096) >= 0) g_shrunk.fetch_add(1);
+    if (!g_step || tl_loop != 0) return;
     g_step_points.fetch_add(1);
     for (int r = 0; r < 3; ++r) pass_round();
 }
@@ -229,6 +236,38 @@ static void do_raise(int s, const std::string &via, int t) {
     settle_and_log(base);
 }
 
+// burst S N: while (at least) one subscribed loop is held, S is raised N times, one at a time (kill() on the main thread,
+// then three passes of every loop that is not held).  The held loop's pipe overflows; the other loops must keep getting
+// every delivery.  Recorded from counters: callbacks per event (on the event's own thread), whether every raise produced
+// the same set of callbacks, callbacks on a wrong thread, calls of the pre-existing handler.
+static void do_burst(int s, int N) {
+    auto &T = vh::T();
+    int signo = signo_of(s);
+    int base[NSIG_T + 1];
+    for (int i = 0; i <= NSIG_T; ++i) base[i] = g_sent[i].load();
+    std::vector<long> cnt(g_ev.size(), 0);
+    std::vector<int> first;
+    bool steady = true; long wrong = 0;
+    g_shrunk = 0;
+    for (int r = 0; r < N; ++r) {
+        { std::lock_guard<std::mutex> g(g_cb_m); g_cbs.clear(); }
+        g_shrink = (r == 0);
+        kill(getpid(), signo);
+        g_shrink = false;
+        for (int q = 0; q < 3; ++q) pass_round();
+        std::vector<int> now;
+        { std::lock_guard<std::mutex> g(g_cb_m);
+          for (auto &c : g_cbs) { if (c.sig != s || c.ev < 1 || c.ev >= (int)g_cfg.size() || c.thr != g_cfg[c.ev].L) { ++wrong; continue; } now.push_back(c.ev); ++cnt[c.ev]; } }
+        std::sort(now.begin(), now.end());
+        if (r == 0) first = now; else if (now != first) steady = false;
+        g_progress.fetch_add(1);
+    }
+    std::string c = "[";
+    for (size_t e = 1; e < cnt.size(); ++e) { if (e > 1) c += ','; c += std::to_string(cnt[e]); }
+    c += "]";
+    T.printf("{\"e\":\"burst\",\"s\":%d,\"n\":%d,\"cnt\":%s,\"steady\":%s,\"wrong\":%ld,\"shrunk\":%d,\"sent\":%s,\"en\":%s,\"d\":%s}", s, N, c.c_str(),
+             steady ? "true" : "false", wrong, g_shrunk.load(), sent_json(base).c_str(), en_json().c_str(), disp_json().c_str());
+}
 static void do_batch(int L, const json &ops) {
     run_on(L, [&] { for (auto &o : ops) inline_op(o["o"].get<std::string>(), o["a"].get<int>(), L, 0); }, "batch");
     vh::T().printf("{\"e\":\"batch\",\"L\":%d,\"ops\":%s,\"en\":%s,\"d\":%s}", L, ops.dump().c_str(), en_json().c_str(), disp_json().c_str());
@@ -321,6 +360,10 @@ static void execute(const json &sc) {
             if (via != "self" && via != "async") t = 0;
             else if (t < 1 || t > n || is_held(t)) { via = "main"; t = 0; }
             do_raise(a, via, t);
+        } else if (o == "burst") {
+            if (a < 1 || a > NSIG_T) continue;
+            if (no_raise_now(a)) { T.printf("{\"e\":\"noraise\",\"s\":%d,\"d\":%s}", a, disp_json().c_str()); continue; }
+            do_burst(a, op.value("n", 1200));
         } else if (o == "hold") {
             if (a >= 1 && a <= n && !is_held(a)) do_hold(a);
         } else if (o == "release") {
